@@ -198,7 +198,7 @@ void register_c03(std::vector<Profile>& v)
   p.stub_components = {"sinks (RecordingSink, a user Sink subclass)", "clock (virtual)", "thread scheduling (simulator)"};
   p.assumptions = {"atomics are sequentially consistent in SIM-SYS (memory-model effects are covered by SIM-Q for the queues)",
                    "record sizes stay below capacity-6% (larger ones are the subject of C09)"};
-  p.quick_runs = 3000;
+  p.quick_runs = 20000;
   p.thorough_runs = 400000;
   v.push_back(p);
 }
